@@ -150,6 +150,14 @@ def run(ctx):
             for ts in (ts0, (2019, 12, 30, 8, 0), (2021, 6, 18, 12, 0)):
                 for jl, text in (("join: - ", t1 + " - " + t2), ("join:to", t1 + " to " + t2), ("join:bis", t1 + " bis " + t2)):
                     cases.append({"text": text, "D1": D1, "D2": D2, "ts": ts, "label": "mixed-day-kinds", "form": jl})
+    # a year-less start takes the year of a dated end (ruleDOYDate): month ends and neighbouring days, past and future years
+    for (d1, m1), (d2, m2) in [((31, 1), (1, 2)), ((31, 3), (1, 4)), ((31, 5), (1, 6)), ((31, 7), (1, 8)), ((31, 8), (1, 9)), ((31, 10), (1, 11)),
+                               ((28, 2), (1, 3)), ((30, 4), (1, 5)), ((1, 1), (31, 12)), ((5, 3), (6, 3)), ((29, 2), (1, 3)), ((30, 11), (1, 12)),
+                               ((1, 12), (30, 11)), ((6, 3), (5, 3)), ((5, 3), (5, 3))]:
+        for y in (2017, 2019, 2020, 2029):
+            for ts in (ts0, (2018, 8, 1, 9, 0)):
+                cases.append({"text": "%d.%d. - %d.%d.%d" % (d1, m1, d2, m2, y), "D1": G.day("doy", d1, m1), "D2": G.day("date", d2, m2, y), "ts": ts,
+                              "label": "doy-date", "form": "join: - "})
     core.run_stage(ctx, "e2e-date-ranges", cases, e2e.obs_drange, "DenoteTrace")
 
     # ---- before / after ---------------------------------------------------------------------------
